@@ -368,12 +368,18 @@ def directed_cases():
     return out
 
 
-def stream(chk, rng, count):
+def stream(chk, rng, count, bindmap=False):
     """model vs implementation on `count` generated (template, history) pairs; returns the number of differences"""
     cases = []
     for i in range(count):
         r = rng.fork(("tagsem", i))
         nodes = gen_nodes(r, [], 3, 1 + r.below(3)) or [("text", ("mix", [("s", "t")]))]
+        if bindmap and i % 2 == 0:
+            # mostly static templates (the binding map only reaches bindings outside wx:if / wx:for), sometimes with one dynamic subtree
+            nodes = [gen_elem(r, [], 2 if r.chance(1, 3) else 1) if r.chance(2, 3) else ("block", [("text", gen_value(r, [])), gen_elem(r, [], 0)])
+                     for _ in range(1 + r.below(3))]
+            if r.chance(1, 3):
+                nodes.append(gen_node(r, [], 2))
         D0 = POOL[i % len(POOL)]
         hist = [D0]
         for _ in range(1 + r.below(3)):
@@ -388,6 +394,12 @@ def stream(chk, rng, count):
                 u = True
             steps.append({"update": b, "U": up.tree_to_req(u)})
         cases.append((nodes, hist, steps))
+        if bindmap and i % 2 == 0:
+            # the same template, every data field changed on its own and handed to the binding map (refused for fields it does not advertise)
+            for f in sorted(D0):
+                D1 = dict(D0)
+                D1[f] = copy.deepcopy(r.choice([x for x in LEAVES if x != D0[f]]))
+                cases.append((nodes, [D0, D1], [{"create": D0}, {"bindmap": f, "D": D1}]))
     cases += directed_cases()
     srcs = [wx_nodes(n) for n, _, _ in cases]
     groups = render.compile_templates([[["p", s]] for s in srcs])
@@ -407,14 +419,30 @@ def stream(chk, rng, count):
             chk.bump("corr:tagsem:real-failed")
             continue
         born = {}
-        texts = []
+        B = sorted(o["snapshots"][0].get("B") or [])
+        refused = [st["bindmap"] for st, snap in zip(steps, o["snapshots"]) if "bindmap" in st and snap.get("ret") is not True]
+        if refused:
+            # the map has no updaters for this field (bindingMapUpdate answers false and does nothing): it must then not be advertised; the
+            # model has no such step
+            if any(f in B for f in refused):
+                chk.violation("input", f"bindingMapUpdate refused the advertised field {refused[0]!r}", template=srcs[i], advertised=B)
+            chk.bump("corr:tagsem:bindmap-refused-unadvertised")
+            continue
+        texts = [",".join(B)]
         for k, snap in enumerate(o["snapshots"]):
             for n in all_ids(snap["tree"], []):
                 born.setdefault(n, k)
             texts.append(print_real(snap["tree"], born))
-        # (a step whose whole data tree is `true` is marked: the generated code then hands every list the tree `undefined`)
-        marks = [""] + [("!" if st.get("U") is True else "") for st in steps[1:]]
-        dreqs.append(core.req("tagsem", "(tmpl %s)" % " ".join(sx_node(n) for n in nodes), *[m + sx_data(D) for m, D in zip(marks, hist)]))
+        # a step is `u<data>` (update with an object tree), `t<data>` (the whole data tree is `true`: the generated code then hands every list
+        # the tree `undefined`) or `b<field>|<data>` (the binding-map updaters of one field)
+        enc = []
+        for st, D in zip(steps[1:], hist[1:]):
+            if "bindmap" in st:
+                enc.append("b" + st["bindmap"] + "|" + sx_data(D))
+                chk.bump("corr:tagsem:bindmap-steps")
+            else:
+                enc.append(("t" if st.get("U") is True else "u") + sx_data(D))
+        dreqs.append(core.req("tagsem", "(tmpl %s)" % " ".join(sx_node(n) for n in nodes), ",".join(sorted(set(hist[0]) | {"u"})), sx_data(hist[0]), *enc))
         real.append("\t".join(core.esc(t) for t in texts))
     if not dreqs:
         return 0
@@ -422,5 +450,6 @@ def stream(chk, rng, count):
     # templates whose expressions leave the modelled fragment at run time are not comparable
     pairs = [(rq, a, b) for rq, a, b in zip(dreqs, real, model) if "unsupported" not in b]
     chk.bump("corr:tagsem:unsupported", len(dreqs) - len(pairs))
-    chk.bump("corr:tagsem:reused-node-cases", sum(1 for _, a, _ in pairs if any(("T0:" in part or "E0:" in part) for part in a.split("\t")[1:])))
+    chk.bump("corr:tagsem:reused-node-cases", sum(1 for _, a, _ in pairs if any(("T0:" in part or "E0:" in part) for part in a.split("\t")[2:])))
+    chk.bump("corr:tagsem:advertising-cases", sum(1 for _, a, _ in pairs if a.split("\t")[0] != ""))
     return core.diff_streams(chk, "tagsem", [p[0] for p in pairs], [p[1] for p in pairs], [p[2] for p in pairs])
